@@ -115,7 +115,34 @@ func genTraffic(r *core.Rand, tier string, s *Scenario, allowCancel bool) {
 		if r.Chance(1, 6) && (costCap == 0 || costCap > 60000) {
 			style = 4
 		}
+		lateWrite := allowCancel && r.Chance(1, 8)
+		if lateWrite {
+			style = 5
+		}
 		switch style {
+		case 5:
+			// the handler's first header / message is written when its context
+			// ends: the server's deadline timer or the client's RST_STREAM
+			// closes the stream while the handler is on its way to the write
+			if r.Chance(1, 2) {
+				rpc.Client = append(rpc.Client, Op{Op: "send", N: r.Intn(100)})
+				srv = append(srv, Op{Op: "recv"})
+			}
+			if r.Chance(1, 2) {
+				rpc.DeadlineNs = int64(core.Pick(r, 1000, 50000, 1000000, 30000000))
+				rpc.Client = append(rpc.Client, Op{Op: "recv_all"})
+			} else {
+				rpc.Client = append(rpc.Client, Op{Op: "sleep", Ns: int64(core.Pick(r, 1000, 50000, 1000000, 30000000))}, Op{Op: "cancel"}, Op{Op: "recv_all"})
+			}
+			srv = append(srv, Op{Op: "wait_ctx"})
+			switch r.Intn(3) {
+			case 0:
+				srv = append(srv, Op{Op: "send_header", MD: []KV{{K: "x-late", V: "1"}}})
+			case 1:
+				srv = append(srv, Op{Op: "send", N: r.Intn(2000)})
+			default:
+				srv = append(srv, Op{Op: "send_header", MD: []KV{{K: "x-late", V: "1"}}}, Op{Op: "send", N: r.Intn(2000)})
+			}
 		case 4: // window-boundary pattern in one direction
 			if r.Chance(1, 2) {
 				for _, n := range boundary(c2sWin) {
@@ -182,13 +209,13 @@ func genTraffic(r *core.Rand, tier string, s *Scenario, allowCancel bool) {
 		if r.Chance(1, 5) {
 			srv = append(srv, Op{Op: "return", Code: r.Range(1, 16), Msg: "scripted"})
 		}
-		if allowCancel && r.Chance(1, 5) && len(rpc.Client) > 0 {
+		if allowCancel && !lateWrite && r.Chance(1, 5) && len(rpc.Client) > 0 {
 			at := r.Intn(len(rpc.Client) + 1)
 			ops := append([]Op{}, rpc.Client[:at]...)
 			ops = append(ops, Op{Op: "cancel"})
 			rpc.Client = append(ops, rpc.Client[at:]...)
 		}
-		if allowCancel && r.Chance(1, 6) {
+		if allowCancel && !lateWrite && r.Chance(1, 6) {
 			rpc.DeadlineNs = int64(core.Pick(r, 1000, 1000000, 30000000, 3000000000))
 		}
 		rpc.Server = [][]Op{srv}
